@@ -163,6 +163,21 @@ def firstReject (cfg : Cfg β α) (s : State α) : List Ev → Nat → Option Na
 /-- a recorded trace is accepted iff it is a run of the model from the initial state -/
 def acceptsTrace (cfg : Cfg β α) (tr : List Ev) : Bool := (exec cfg init tr).isSome
 
+theorem isNone_true {o : Option Nat} (h : o.isNone = true) : o = none := by
+  cases o with
+  | none => rfl
+  | some v => simp at h
+
+theorem isNone_false {o : Option Nat} (h : o.isNone = false) : ∃ v, o = some v := by
+  cases o with
+  | none => simp at h
+  | some v => exact ⟨v, rfl⟩
+
+theorem Steps.head {cfg : Cfg β α} {s t u : State α} (h1 : Step cfg s t) (h2 : Steps cfg t u) : Steps cfg s u := by
+  induction h2 with
+  | refl => exact Steps.tail (Steps.refl _) h1
+  | tail _ st ih => exact Steps.tail ih st
+
 theorem next_sound (cfg : Cfg β α) {s t : State α} {e : Ev} (h : next cfg s e = some t) : Step cfg s t := by
   cases e with
   | present i b =>
@@ -178,16 +193,10 @@ theorem next_sound (cfg : Cfg β α) {s t : State α} {e : Ev} (h : next cfg s e
     split at h
     · rename_i hc; cases h
       cases isNil with
-      | true =>
-        have : s.cell = none := by
-          cases hcell : s.cell with
-          | none => rfl
-          | some v => have := hc.2; simp [hcell] at this
-        exact Step.checkNil_nil s i hc.1 this
+      | true => exact Step.checkNil_nil s i hc.1 (isNone_true hc.2)
       | false =>
-        cases hcell : s.cell with
-        | none => have := hc.2; simp [hcell] at this
-        | some v => exact Step.checkNil_set s i v hc.1 hcell
+        obtain ⟨v, hv⟩ := isNone_false hc.2
+        exact Step.checkNil_set s i v hc.1 hv
     · cases h
   | decode i obj =>
     simp only [next] at h
@@ -203,16 +212,11 @@ theorem next_sound (cfg : Cfg β α) {s t : State α} {e : Ev} (h : next cfg s e
         cases won with
         | true =>
           simp only [if_true] at h; cases h
-          have : s.cell = none := by
-            cases hcell : s.cell with
-            | none => rfl
-            | some v => simp [hcell] at hc
-          exact Step.cas_win s i m hpc hpub this
+          exact Step.cas_win s i m hpc hpub (isNone_true hc)
         | false =>
           simp only [Bool.false_eq_true, if_false] at h; cases h
-          cases hcell : s.cell with
-          | none => simp [hcell] at hc
-          | some v => exact Step.cas_lose s i m v hpc hpub hcell
+          obtain ⟨v, hv⟩ := isNone_false hc
+          exact Step.cas_lose s i m v hpc hpub hv
       · cases h
     · rename_i m hpc hpub
       split at h
@@ -233,12 +237,7 @@ theorem exec_steps (cfg : Cfg β α) : ∀ (tr : List Ev) {s t : State α}, exec
     | none => simp [hn] at h
     | some u =>
       simp only [hn, Option.bind_some] at h
-      have h1 := next_sound cfg hn
-      have h2 := exec_steps cfg es h
-      clear h hn
-      induction h2 with
-      | refl => exact Steps.tail (Steps.refl _) h1
-      | tail _ st ih => exact Steps.tail (ih h1) st
+      exact Steps.head (next_sound cfg hn) (exec_steps cfg es h)
 
 theorem steps_reachable {cfg : Cfg β α} {s t : State α} (r : Reachable cfg s) (h : Steps cfg s t) : Reachable cfg t := by
   induction h with
@@ -250,5 +249,383 @@ theorem exec_reachable (cfg : Cfg β α) {tr : List Ev} {t : State α} (h : exec
   steps_reachable Reachable.init (exec_steps cfg tr h)
 
 end Lazy
+
+/-! ## (b), (c) double-checked initialisation and sync.Once -/
+namespace Dcl
+
+/-- the re-check under the lock: `if mi.initDone == 1 { return }` (MessageInfo.initOnce,
+sync.Once.doSlow) reads the done flag; `if fd.L2 == nil { … }` (File.lazyInitOnce) reads the
+structure itself, whose first body write (`fd.L2 = new(FileL2)`) makes it non-nil. -/
+inductive Recheck | flag | started
+  deriving DecidableEq, Repr
+
+/-- `bodyThenStore`: the code's order.  `storeThenBody`: the broken variant in which the done flag is
+published before the body has run. -/
+inductive Order | bodyThenStore | storeThenBody
+  deriving DecidableEq, Repr
+
+structure Cfg where
+  writes     : Nat      -- the body performs this many plain (non-atomic) writes, one step each
+  recheck    : Recheck
+  storeOnHit : Bool     -- File.lazyInitOnce stores the flag again when the re-check finds L2 set
+  order      : Order
+  deriving DecidableEq, Repr
+
+inductive PC where
+  | fast                      -- atomic.LoadUint32(&done) == 0 ?
+  | lock                      -- mu.Lock()
+  | recheck
+  | body (k : Nat)            -- about to perform write number k
+  | store (thenBody : Bool)   -- atomic.StoreUint32(&done, 1)
+  | unlock                    -- mu.Unlock()
+  | read                      -- the caller uses the initialised structure
+  | done (obs : List Nat)     -- what it observed
+  deriving DecidableEq, Repr
+
+structure State where
+  flag  : Bool            -- initDone / once / sync.Once.done
+  mutex : Option Nat      -- holder of initMu / mu / Once.m
+  data  : List Nat        -- the shared structure: the writes performed so far, in order
+  runs  : Nat             -- history variable: how many times the body was entered
+  pc    : Nat → PC
+
+def init : State := { flag := false, mutex := none, data := [], runs := 0, pc := fun _ => .fast }
+
+/-- the structure after a complete run of the body -/
+def complete (cfg : Cfg) : List Nat := List.range cfg.writes
+
+def initialised (cfg : Cfg) (s : State) : Bool :=
+  match cfg.recheck with
+  | .flag => s.flag
+  | .started => !s.data.isEmpty
+
+def afterHit (cfg : Cfg) : PC := if cfg.storeOnHit then .store false else .unlock
+def afterMiss (cfg : Cfg) : PC := match cfg.order with | .bodyThenStore => .body 0 | .storeThenBody => .store true
+def afterBody (cfg : Cfg) : PC := match cfg.order with | .bodyThenStore => .store false | .storeThenBody => .unlock
+def afterStore (thenBody : Bool) : PC := if thenBody then .body 0 else .unlock
+
+inductive Step (cfg : Cfg) : State → State → Prop where
+  | fast_hit (s i) : s.pc i = .fast → s.flag = true →
+      Step cfg s { s with pc := upd s.pc i .read }
+  | fast_miss (s i) : s.pc i = .fast → s.flag = false →
+      Step cfg s { s with pc := upd s.pc i .lock }
+  | lock (s i) : s.pc i = .lock → s.mutex = none →
+      Step cfg s { s with mutex := some i, pc := upd s.pc i .recheck }
+  | recheck_hit (s i) : s.pc i = .recheck → initialised cfg s = true →
+      Step cfg s { s with pc := upd s.pc i (afterHit cfg) }
+  | recheck_miss (s i) : s.pc i = .recheck → initialised cfg s = false →
+      Step cfg s { s with runs := s.runs + 1, pc := upd s.pc i (afterMiss cfg) }
+  | write (s i k) : s.pc i = .body k → k < cfg.writes →
+      Step cfg s { s with data := s.data ++ [k], pc := upd s.pc i (.body (k + 1)) }
+  | body_end (s i k) : s.pc i = .body k → ¬ k < cfg.writes →
+      Step cfg s { s with pc := upd s.pc i (afterBody cfg) }
+  | store (s i b) : s.pc i = .store b →
+      Step cfg s { s with flag := true, pc := upd s.pc i (afterStore b) }
+  | unlock (s i) : s.pc i = .unlock →
+      Step cfg s { s with mutex := none, pc := upd s.pc i .read }
+  | read (s i) : s.pc i = .read →
+      Step cfg s { s with pc := upd s.pc i (.done s.data) }
+
+inductive Reachable (cfg : Cfg) : State → Prop where
+  | init : Reachable cfg init
+  | step {s t} : Reachable cfg s → Step cfg s t → Reachable cfg t
+
+inductive Steps (cfg : Cfg) : State → State → Prop where
+  | refl (s) : Steps cfg s s
+  | tail {s t u} : Steps cfg s t → Step cfg t u → Steps cfg s u
+
+/-- inside the critical section -/
+def inCS : PC → Bool
+  | .recheck | .body _ | .store _ | .unlock => true
+  | _ => false
+
+inductive Ev where
+  | fast (i : Nat) (hit : Bool)
+  | lock (i : Nat)
+  | recheck (i : Nat) (hit : Bool)
+  | write (i : Nat) (k : Nat)
+  | bodyEnd (i : Nat)
+  | store (i : Nat)
+  | unlock (i : Nat)
+  | read (i : Nat)
+  deriving DecidableEq, Repr
+
+def next (cfg : Cfg) (s : State) : Ev → Option State
+  | .fast i hit =>
+    if s.pc i = .fast ∧ s.flag = hit then some { s with pc := upd s.pc i (if hit then .read else .lock) } else none
+  | .lock i =>
+    if s.pc i = .lock ∧ s.mutex = none then some { s with mutex := some i, pc := upd s.pc i .recheck } else none
+  | .recheck i hit =>
+    if s.pc i = .recheck ∧ initialised cfg s = hit then
+      (if hit then some { s with pc := upd s.pc i (afterHit cfg) }
+       else some { s with runs := s.runs + 1, pc := upd s.pc i (afterMiss cfg) })
+    else none
+  | .write i k =>
+    if s.pc i = .body k ∧ k < cfg.writes then
+      some { s with data := s.data ++ [k], pc := upd s.pc i (.body (k + 1)) }
+    else none
+  | .bodyEnd i =>
+    match s.pc i with
+    | .body k => if k < cfg.writes then none else some { s with pc := upd s.pc i (afterBody cfg) }
+    | _ => none
+  | .store i =>
+    match s.pc i with
+    | .store b => some { s with flag := true, pc := upd s.pc i (afterStore b) }
+    | _ => none
+  | .unlock i =>
+    if s.pc i = .unlock then some { s with mutex := none, pc := upd s.pc i .read } else none
+  | .read i =>
+    if s.pc i = .read then some { s with pc := upd s.pc i (.done s.data) } else none
+
+def exec (cfg : Cfg) (s : State) : List Ev → Option State
+  | [] => some s
+  | e :: es => (next cfg s e).bind fun t => exec cfg t es
+
+def firstReject (cfg : Cfg) (s : State) : List Ev → Nat → Option Nat
+  | [], _ => none
+  | e :: es, k => match next cfg s e with
+    | none => some k
+    | some t => firstReject cfg t es (k + 1)
+
+def acceptsTrace (cfg : Cfg) (tr : List Ev) : Bool := (exec cfg init tr).isSome
+
+theorem Steps.head {cfg : Cfg} {s t u : State} (h1 : Step cfg s t) (h2 : Steps cfg t u) : Steps cfg s u := by
+  induction h2 with
+  | refl => exact Steps.tail (Steps.refl _) h1
+  | tail _ st ih => exact Steps.tail ih st
+
+theorem next_sound (cfg : Cfg) {s t : State} {e : Ev} (h : next cfg s e = some t) : Step cfg s t := by
+  cases e with
+  | fast i hit =>
+    simp only [next] at h
+    split at h
+    · rename_i hc; cases h
+      cases hit with
+      | true => exact Step.fast_hit s i hc.1 hc.2
+      | false => exact Step.fast_miss s i hc.1 hc.2
+    · cases h
+  | lock i =>
+    simp only [next] at h
+    split at h
+    · rename_i hc; cases h; exact Step.lock s i hc.1 hc.2
+    · cases h
+  | recheck i hit =>
+    simp only [next] at h
+    split at h
+    · rename_i hc
+      cases hit with
+      | true => simp only [if_true] at h; cases h; exact Step.recheck_hit s i hc.1 hc.2
+      | false => simp only [Bool.false_eq_true, if_false] at h; cases h; exact Step.recheck_miss s i hc.1 hc.2
+    · cases h
+  | write i k =>
+    simp only [next] at h
+    split at h
+    · rename_i hc; cases h; exact Step.write s i k hc.1 hc.2
+    · cases h
+  | bodyEnd i =>
+    simp only [next] at h
+    split at h
+    · rename_i k hpc
+      split at h
+      · cases h
+      · rename_i hk; cases h; exact Step.body_end s i k hpc hk
+    · cases h
+  | store i =>
+    simp only [next] at h
+    split at h
+    · rename_i b hpc; cases h; exact Step.store s i b hpc
+    · cases h
+  | unlock i =>
+    simp only [next] at h
+    split at h
+    · rename_i hc; cases h; exact Step.unlock s i hc
+    · cases h
+  | read i =>
+    simp only [next] at h
+    split at h
+    · rename_i hc; cases h; exact Step.read s i hc
+    · cases h
+
+theorem exec_steps (cfg : Cfg) : ∀ (tr : List Ev) {s t : State}, exec cfg s tr = some t → Steps cfg s t
+  | [], s, t, h => by simp only [exec] at h; cases h; exact Steps.refl s
+  | e :: es, s, t, h => by
+    simp only [exec] at h
+    cases hn : next cfg s e with
+    | none => simp [hn] at h
+    | some u =>
+      simp only [hn, Option.bind_some] at h
+      exact Steps.head (next_sound cfg hn) (exec_steps cfg es h)
+
+theorem steps_reachable {cfg : Cfg} {s t : State} (r : Reachable cfg s) (h : Steps cfg s t) : Reachable cfg t := by
+  induction h with
+  | refl => exact r
+  | tail _ st ih => exact Reachable.step ih st
+
+theorem exec_reachable (cfg : Cfg) {tr : List Ev} {t : State} (h : exec cfg init tr = some t) : Reachable cfg t :=
+  steps_reachable Reachable.init (exec_steps cfg tr h)
+
+end Dcl
+
+/-! ## (d) a registry protected by a readers/writer mutex -/
+namespace Reg
+
+/-- an operation on the global registry: `RegisterFile(f)` or a lookup (`Find*`, `Range*`, `Num*`) -/
+inductive Op | register (f : Nat) | lookup
+  deriving DecidableEq, Repr
+
+/-- registry contents: the name table (`descsByName`: one entry per declaration, inserted one
+after the other) and `filesByPath` (appended last). -/
+structure Tab where
+  entries : List (Nat × Nat)    -- (file, index of the declaration inside the file)
+  files   : List Nat
+  deriving DecidableEq, Repr
+
+/-- result of an operation; a lookup returns everything it could possibly see: a snapshot -/
+inductive Res | ok | conflict | snap (t : Tab)
+  deriving DecidableEq, Repr
+
+structure Cfg where
+  prog  : Nat → Op       -- the operation performed by thread i (any program)
+  ndecl : Nat → Nat      -- number of declarations of file f
+  readerLocks : Bool     -- lookups hold globalMutex.RLock (the broken variant does not)
+
+inductive PC where
+  | idle
+  | wcheck                 -- holds the write lock; conflict checks
+  | ins (k : Nat)          -- about to insert declaration k
+  | wunlock (r : Res)
+  | rread                  -- holds the read lock; about to read the maps
+  | runlock (r : Res)
+  | done (r : Res)
+  deriving DecidableEq, Repr
+
+structure State where
+  tab     : Tab
+  writer  : Option Nat     -- holder of globalMutex.Lock
+  readers : List Nat       -- holders of globalMutex.RLock
+  log     : List Nat       -- history variable: threads in the order in which they acquired the lock
+  pc      : Nat → PC
+
+def init : State := { tab := ⟨[], []⟩, writer := none, readers := [], log := [], pc := fun _ => .idle }
+
+def decls (cfg : Cfg) (f : Nat) : List (Nat × Nat) := (List.range (cfg.ndecl f)).map fun k => (f, k)
+
+/-- the sequential registry: one whole operation at a time -/
+def seqApply (cfg : Cfg) (t : Tab) : Op → Tab × Res
+  | .register f =>
+    if f ∈ t.files then (t, .conflict)
+    else ({ entries := t.entries ++ decls cfg f, files := t.files ++ [f] }, .ok)
+  | .lookup => (t, .snap t)
+
+def seqRun (cfg : Cfg) (ops : List Op) : Tab := ops.foldl (fun t op => (seqApply cfg t op).1) ⟨[], []⟩
+
+inductive Step (cfg : Cfg) : State → State → Prop where
+  | wlock (s i f) : s.pc i = .idle → cfg.prog i = .register f → s.writer = none → s.readers = [] →
+      Step cfg s { s with writer := some i, log := s.log ++ [i], pc := upd s.pc i .wcheck }
+  | wcheck_dup (s i f) : s.pc i = .wcheck → cfg.prog i = .register f → f ∈ s.tab.files →
+      Step cfg s { s with pc := upd s.pc i (.wunlock .conflict) }
+  | wcheck_new (s i f) : s.pc i = .wcheck → cfg.prog i = .register f → f ∉ s.tab.files →
+      Step cfg s { s with pc := upd s.pc i (.ins 0) }
+  | ins (s i f k) : s.pc i = .ins k → cfg.prog i = .register f → k < cfg.ndecl f →
+      Step cfg s { s with tab := { s.tab with entries := s.tab.entries ++ [(f, k)] }, pc := upd s.pc i (.ins (k + 1)) }
+  | ins_end (s i f k) : s.pc i = .ins k → cfg.prog i = .register f → ¬ k < cfg.ndecl f →
+      Step cfg s { s with tab := { s.tab with files := s.tab.files ++ [f] }, pc := upd s.pc i (.wunlock .ok) }
+  | wunlock (s i r) : s.pc i = .wunlock r →
+      Step cfg s { s with writer := none, pc := upd s.pc i (.done r) }
+  | rlock (s i) : s.pc i = .idle → cfg.prog i = .lookup → cfg.readerLocks = true → s.writer = none →
+      Step cfg s { s with readers := i :: s.readers, log := s.log ++ [i], pc := upd s.pc i .rread }
+  | rskip (s i) : s.pc i = .idle → cfg.prog i = .lookup → cfg.readerLocks = false →
+      Step cfg s { s with log := s.log ++ [i], pc := upd s.pc i .rread }
+  | rread (s i) : s.pc i = .rread →
+      Step cfg s { s with pc := upd s.pc i (.runlock (.snap s.tab)) }
+  | runlock (s i r) : s.pc i = .runlock r →
+      Step cfg s { s with readers := s.readers.filter (· ≠ i), pc := upd s.pc i (.done r) }
+
+inductive Reachable (cfg : Cfg) : State → Prop where
+  | init : Reachable cfg init
+  | step {s t} : Reachable cfg s → Step cfg s t → Reachable cfg t
+
+inductive Steps (cfg : Cfg) : State → State → Prop where
+  | refl (s) : Steps cfg s s
+  | tail {s t u} : Steps cfg s t → Step cfg t u → Steps cfg s u
+
+/-- scheduler choice: which thread takes its (unique) next step -/
+def next (cfg : Cfg) (s : State) (i : Nat) : Option State :=
+  match s.pc i, cfg.prog i with
+  | .idle, .register _ =>
+    if s.writer = none ∧ s.readers = [] then
+      some { s with writer := some i, log := s.log ++ [i], pc := upd s.pc i .wcheck }
+    else none
+  | .idle, .lookup =>
+    if cfg.readerLocks then
+      (if s.writer = none then some { s with readers := i :: s.readers, log := s.log ++ [i], pc := upd s.pc i .rread } else none)
+    else some { s with log := s.log ++ [i], pc := upd s.pc i .rread }
+  | .wcheck, .register f =>
+    if f ∈ s.tab.files then some { s with pc := upd s.pc i (.wunlock .conflict) }
+    else some { s with pc := upd s.pc i (.ins 0) }
+  | .ins k, .register f =>
+    if k < cfg.ndecl f then
+      some { s with tab := { s.tab with entries := s.tab.entries ++ [(f, k)] }, pc := upd s.pc i (.ins (k + 1)) }
+    else some { s with tab := { s.tab with files := s.tab.files ++ [f] }, pc := upd s.pc i (.wunlock .ok) }
+  | .wunlock r, _ => some { s with writer := none, pc := upd s.pc i (.done r) }
+  | .rread, _ => some { s with pc := upd s.pc i (.runlock (.snap s.tab)) }
+  | .runlock r, _ => some { s with readers := s.readers.filter (· ≠ i), pc := upd s.pc i (.done r) }
+  | _, _ => none
+
+def exec (cfg : Cfg) (s : State) : List Nat → Option State
+  | [] => some s
+  | i :: is => (next cfg s i).bind fun t => exec cfg t is
+
+theorem Steps.head {cfg : Cfg} {s t u : State} (h1 : Step cfg s t) (h2 : Steps cfg t u) : Steps cfg s u := by
+  induction h2 with
+  | refl => exact Steps.tail (Steps.refl _) h1
+  | tail _ st ih => exact Steps.tail ih st
+
+theorem next_sound (cfg : Cfg) {s t : State} {i : Nat} (h : next cfg s i = some t) : Step cfg s t := by
+  unfold next at h
+  split at h
+  · rename_i f hpc hprog
+    split at h
+    · rename_i hc; cases h; exact Step.wlock s i f hpc hprog hc.1 hc.2
+    · cases h
+  · rename_i hpc hprog
+    split at h
+    · rename_i hl
+      split at h
+      · rename_i hw; cases h; exact Step.rlock s i hpc hprog hl hw
+      · cases h
+    · rename_i hl; cases h; exact Step.rskip s i hpc hprog (by simpa using hl)
+  · rename_i f hpc hprog
+    split at h
+    · rename_i hf; cases h; exact Step.wcheck_dup s i f hpc hprog hf
+    · rename_i hf; cases h; exact Step.wcheck_new s i f hpc hprog hf
+  · rename_i k f hpc hprog
+    split at h
+    · rename_i hk; cases h; exact Step.ins s i f k hpc hprog hk
+    · rename_i hk; cases h; exact Step.ins_end s i f k hpc hprog hk
+  · rename_i r hpc; cases h; exact Step.wunlock s i r hpc
+  · rename_i hpc; cases h; exact Step.rread s i hpc
+  · rename_i r hpc; cases h; exact Step.runlock s i r hpc
+  · cases h
+
+theorem exec_steps (cfg : Cfg) : ∀ (tr : List Nat) {s t : State}, exec cfg s tr = some t → Steps cfg s t
+  | [], s, t, h => by simp only [exec] at h; cases h; exact Steps.refl s
+  | e :: es, s, t, h => by
+    simp only [exec] at h
+    cases hn : next cfg s e with
+    | none => simp [hn] at h
+    | some u =>
+      simp only [hn, Option.bind_some] at h
+      exact Steps.head (next_sound cfg hn) (exec_steps cfg es h)
+
+theorem steps_reachable {cfg : Cfg} {s t : State} (r : Reachable cfg s) (h : Steps cfg s t) : Reachable cfg t := by
+  induction h with
+  | refl => exact r
+  | tail _ st ih => exact Reachable.step ih st
+
+theorem exec_reachable (cfg : Cfg) {tr : List Nat} {t : State} (h : exec cfg init tr = some t) : Reachable cfg t :=
+  steps_reachable Reachable.init (exec_steps cfg tr h)
+
+end Reg
 
 end Conc
